@@ -20,6 +20,7 @@ import (
 	"math/rand/v2"
 	"net"
 	"net/netip"
+	"os"
 	"path/filepath"
 	"sort"
 	"strconv"
@@ -210,6 +211,7 @@ type remote struct {
 	unchokedByStorrent bool
 	pendingUp          []rc.Msg // our requests storrent may still answer
 	cancelledUp        []rc.Msg // requests we cancelled (a Fast peer acknowledges with a reject)
+	goneBefore         bool     // the peer had already exited before the transition being judged
 	crossedUp          []rc.Msg // cancelled requests whose Piece storrent had already committed to its writer
 	sentInterested     bool
 	served             int
@@ -402,7 +404,12 @@ func degenerateInfo(g wgeom, truth []byte, kind string) []byte {
 	return rc.Bencode(d)
 }
 
-var discardLog = log.New(io.Discard, "", 0)
+var discardLog = func() *log.Logger {
+	if os.Getenv("VERIF_LOG") != "" {
+		return log.New(os.Stdout, "storrent: ", 0)
+	}
+	return log.New(io.Discard, "", 0)
+}()
 
 // newWorld builds the world; must be called inside a bubble.
 func geomByName(name string) wgeom {
@@ -1379,6 +1386,17 @@ func (w *World) apply(tr string) bool {
 		}
 		b := make([]byte, len(f[2])/2)
 		fmt.Sscanf(f[2], "%x", &b)
+		// a raw extended handshake renegotiates the remote's extension ids:
+		// the monitor must decode what storrent sends it accordingly
+		if len(b) > 6 && b[4] == 20 && b[5] == 0 {
+			if m, err := rc.Decode(b, rc.StorrentIDs); err == nil && m.Kind == rc.Ext0 && m.HasM {
+				r.cfg.Pex, r.cfg.Metadata, r.cfg.DontHave = m.M["ut_pex"], m.M["ut_metadata"], m.M["lt_donthave"]
+			}
+		}
+		for _, o := range w.remotes {
+			// (a remote that storrent dropped because of its own earlier message)
+			o.goneBefore = o.exited()
+		}
 		a0 := allocNowT()
 		r.sendRaw(b)
 		w.transitions++
@@ -1571,7 +1589,7 @@ func (w *World) checkOthersAlive(r *remote) {
 		return
 	}
 	for _, o := range w.remotes {
-		if o != r && !o.closed && o.exited() {
+		if o != r && !o.closed && o.exited() && !o.goneBefore {
 			w.problem("C05", "C05/other-peer-dropped", "after a message from remote %d, the connection to remote %d was dropped", r.idx, o.idx)
 		}
 	}
